@@ -47,6 +47,21 @@ def gen_cases(rng, maxl, n_extra):
         A = pl.rand_shell(rng, LA, pl.place(rng, C, "general", 4.5, 9.0), nprim=1, lo=0.4, hi=2.5)
         B = pl.rand_shell(rng, LB, pl.place(rng, C, "general", 4.5, 9.0), nprim=1, lo=0.4, hi=2.5)
         cases.append(dict(maxLB=maxl, maxLU=maxl, ecp=U, A=A, B=B, kind=["far", "far"]))
+    # shells exactly in a coordinate plane through the ECP (planar molecules): a vanishing component of the offset makes binomial
+    # coefficients exactly 0, which the two code paths skip in different ways
+    for (LA, LB) in ((0, 1), (1, 1), (1, 0), (0, 2), (2, 1), (1, 2)):
+        if max(LA, LB) <= maxl:
+            C = [rng.uniform(-1, 1) for _ in range(3)]
+            kinds = rng.choice([("general", "zplane"), ("zplane", "general"), ("zplane", "zplane"), ("plane", "plane")])
+            cases.append(dict(maxLB=maxl, maxLU=maxl, ecp=pl.rand_ecp(rng, min(2, maxl), C, per_l=1), A=pl.rand_shell(rng, LA, pl.place(rng, C, kinds[0]), nprim=1),
+                              B=pl.rand_shell(rng, LB, pl.place(rng, C, kinds[1]), nprim=1), kind=list(kinds)))
+    # an engine of another shape used FIRST in the same process (cases are run sorted by engine): nothing the generic contraction
+    # derives from one engine's table layout may survive into the next engine
+    if maxl >= 3:
+        for (LA, LB) in ((2, 2), (2, 1)):
+            C = [rng.uniform(-1, 1) for _ in range(3)]
+            cases.insert(0, dict(maxLB=2, maxLU=2, ecp=pl.rand_ecp(rng, 2, C, per_l=1), A=pl.rand_shell(rng, LA, pl.place(rng, C, "general"), nprim=1),
+                              B=pl.rand_shell(rng, LB, pl.place(rng, C, "general"), nprim=1), kind=["small-engine", "first"]))
     return cases
 
 
@@ -92,7 +107,7 @@ def main(ctx, cases=None):
     runs = pl.run_real(drv, cases)
     corr_bad = []
     if os.path.exists(core.DRIVER):
-        sub = runs if not quick else [r for i, r in enumerate(runs) if r.case["A"]["l"] <= 1 and r.case["B"]["l"] <= 1 or i % 3 == 0 or r.case.get("kind") == ["far", "far"]]
+        sub = runs if not quick else [r for i, r in enumerate(runs) if r.case["A"]["l"] <= 1 and r.case["B"]["l"] <= 1 or i % 3 == 0 or r.case.get("kind") == ["far", "far"] or "zplane" in r.case.get("kind", []) or r.case.get("kind", [""])[0] in ("small-engine", "plane")]
         pl.run_model(sub, ("code",))
         for r in sub:
             if not pl.same_bits(r.bits, r.model.get("code")):
